@@ -256,8 +256,13 @@ func c13EvalShared(t *fw.T, c *fw.Case) {
 	var root strings.Builder
 	root.WriteString("JSIGHT 0.3\nTYPE @pid\n  7\n")
 	var keys []string
+	byMacro := c.Index%3 == 2 // the shared text in a macro that every host pastes, instead of a file that every host includes
+	use := "INCLUDE shared.jst"
+	if byMacro {
+		use = "PASTE @shared"
+	}
 	for i := 0; i < k; i++ {
-		root.WriteString(fmt.Sprintf("URL /s%d/{id}\n  INCLUDE shared.jst\n", i))
+		root.WriteString(fmt.Sprintf("URL /s%d/{id}\n  %s\n", i, use))
 		if !inMethod {
 			root.WriteString("  GET\n    200 any\n")
 		}
@@ -268,12 +273,15 @@ func c13EvalShared(t *fw.T, c *fw.Case) {
 	for _, l := range strings.Split(strings.TrimRight(shared, "\n"), "\n") {
 		pad += "  " + l + "\n"
 	}
+	if byMacro {
+		root.WriteString("MACRO @shared\n(\n" + pad + ")\n")
+	}
 	d := run.Doc{Files: map[string][]byte{"root.jst": conv(root.String()), "shared.jst": conv(pad)}, Root: "root.jst"}
 	c.Docs = []run.Doc{d}
 	o := t.Exec(d)
 	t.Count("shared_path_projects")
 	if o.Outcome != run.Accepted {
-		t.Violation("valid-path-tree-rejected:shared-file:"+outcomeSig(o), fmt.Sprintf("a Path kept in a file that %d URL blocks include is not accepted: %s\n%s--- shared.jst\n%s", k, describe(o), root.String(), pad))
+		t.Violation("valid-path-tree-rejected:shared-"+map[bool]string{false: "file", true: "macro"}[byMacro]+":"+outcomeSig(o), fmt.Sprintf("a Path kept in a file (or macro) that %d URL blocks include (paste) is not accepted: %s\n%s--- shared.jst\n%s", k, describe(o), root.String(), pad))
 		return
 	}
 	doc, err := jsonx.Parse(o.JSON)
@@ -289,5 +297,5 @@ func c13EvalShared(t *fw.T, c *fw.Case) {
 			return
 		}
 	}
-	t.Distinct(fmt.Sprintf("shared k%d method%v", k, inMethod))
+	t.Distinct(fmt.Sprintf("shared k%d method%v macro%v", k, inMethod, byMacro))
 }
